@@ -32,7 +32,6 @@ import (
 
 const (
 	sigSeek = "seek-past-last-key"
-	sigTime = "timerange-max-negative"
 )
 
 type jcall struct {
@@ -383,8 +382,8 @@ func runIdx(w *vh.W, c *jcase) {
 	}
 	lastKey := c.Keys[len(c.Keys)-1].Key
 	sig := ""
-	if allNeg {
-		sig = sigTime
+	if allNeg { // formerly the shape of finding timerange-max-negative (fixed): still generated, no longer tolerated
+		w.Count("all_pre_epoch_file", "true")
 	}
 	fresh := true
 	opsT := []string{}
